@@ -1,0 +1,50 @@
+//go:build verif
+
+package dawg
+
+// Contracts for the verification machinery in /verif (comment-only file; no code).
+
+// big-endian value of the bytes s[lo:hi)
+//@ spec be(s []byte, lo int, hi int) int = (hi <= lo ? 0 : be(s, lo, hi-1) * 256 + s[hi-1])
+
+//@ lemma beFrame(s1 []byte, s2 []byte, lo int, hi int)
+//@   requires forall k in lo..hi: s1[k] == s2[k]
+//@   ensures be(s1, lo, hi) == be(s2, lo, hi)
+//@   by induction hi - lo
+//@   pattern be(s1, lo, hi), be(s2, lo, hi)
+
+// The variable-length integer format: x <= 127 is one byte; otherwise the first
+// byte is 128+w, followed by the w >= 1 bytes of x in big-endian order, the
+// first of them non-zero (so every x has exactly one encoding).
+//@ func encodeUint64
+//@   requires cap(buf) >= 9
+//@   modifies buf
+//@   ensures ref(result) == ref(buf) && off(result) == off(buf)
+//@   ensures x <= 127 ==> len(result) == 1 && result[0] == x
+//@   ensures x > 127 ==> 2 <= len(result) && len(result) <= 9 && result[0] == 128 + len(result) - 1 && result[1] != 0
+//@   ensures x > 127 ==> be(result, 1, len(result)) == x
+//@   opt lemmas=beFrame
+//@   split x < 256 | 256 <= x && x < 65536 | 65536 <= x && x < 16777216 | 16777216 <= x && x < 4294967296 | 4294967296 <= x && x < 1099511627776 | 1099511627776 <= x && x < 281474976710656 | 281474976710656 <= x && x < 72057594037927936 | 72057594037927936 <= x
+//@   loop 1
+//@     invariant 0 <= i && i <= 8 - zeroBytes && 0 <= zeroBytes && zeroBytes <= 7 && x > 127 && len(buf) == 9 - zeroBytes && ref(buf) == ref(old(buf)) && off(buf) == off(old(buf))
+//@     invariant pow2(8*(7-zeroBytes)) <= x && x < pow2(8*(8-zeroBytes))
+//@     invariant buf[0] == 128 + 8 - zeroBytes
+//@     invariant forall t in 0..i: buf[1+t] == (x / pow2(8*(7-zeroBytes-t))) % 256
+//@     invariant be(buf, 1, 1+i) == x / pow2(8*(8-zeroBytes-i))
+//@     decreases 8 - zeroBytes - i
+
+// big-endian value of the ghost stream bytes stream[lo:hi)
+//@ func decodeUint64
+//@   ghost var stream seq = 0
+//@   ghost var pos int = 0
+//@   requires cap(buf) >= 9 && len(buf) >= 9
+//@   modifies buf
+//@   ensures err == nil && stream[old(pos)] <= 127 ==> x == stream[old(pos)] && width == 1 && pos == old(pos) + 1
+//@   ensures err == nil && stream[old(pos)] > 127 ==> width == stream[old(pos)] - 128 + 1 && width <= 9 && pos == old(pos) + width && x == be(buf, 0, width-1)
+//@   ensures err == nil && stream[old(pos)] > 127 ==> forall k in 0..width-1: buf[k] == stream[old(pos)+1+k]
+//@   ensures stream[old(pos)] > 136 ==> err != nil
+//@   opt lemmas=beFrame
+//@   loop 1
+//@     invariant -1 <= rangeindex && rangeindex < width - 1 || (width == 1 && rangeindex == -1)
+//@     invariant 1 <= width && width <= 9 && width == n + 1 && x == be(buf, 0, rangeindex+1) && 0 <= x && x < pow2(8*(rangeindex+1))
+//@     decreases width - rangeindex
